@@ -613,6 +613,28 @@ func extStringIndexByte(fr *frame, args []value) value {
 	return -1
 }
 
+func extStringsIndex(fr *frame, args []value) value {
+	a, aok := args[0].(string)
+	b, bok := args[1].(string)
+	if aok && bok {
+		return strings.Index(a, b)
+	}
+	hs, nd := strBytes(args[0]), strBytes(args[1])
+	for i := 0; i+len(nd) <= len(hs); i++ {
+		var m value = true
+		for j := range nd {
+			m = andV(m, scalarEqV(hs[i+j], nd[j]))
+			if mb, ok := m.(bool); ok && !mb {
+				break
+			}
+		}
+		if P.truth(m) {
+			return i
+		}
+	}
+	return -1
+}
+
 func extBytesEqual(fr *frame, args []value) value {
 	return strEqV(normStr(args[0].([]value)), normStr(args[1].([]value)))
 }
@@ -694,6 +716,7 @@ func init() {
 		"strings.ToUpper":       caseMap(true),
 		"strings.ToLower":       caseMap(false),
 		"strings.Compare":       extStringsCompare,
+		"strings.Index":         extStringsIndex,
 		"bytes.IndexByte":       extBytesIndexByte,
 		"strings.IndexByte":     extStringIndexByte,
 		"internal/bytealg.IndexByte":       extBytesIndexByte,
